@@ -149,7 +149,15 @@ def run_pipeline(ctx, mods, case, pts):
     if not ok:
         return
     stages.append(('cluster', np.asarray(k3)))
-    ok, out = install.guarded(ctx, 'stage:mapping', rdp.mapping, k3, reduced, removed)
+    if len(removed) >= 2 and (len(pts) + len(k3)) % 4 == 0:
+        # the mapping stage's other documented form: the removed table in any row order with sorted=False
+        rem = np.asarray(removed)
+        perm = np.roll(np.arange(len(rem)), len(k3) + 1)[::-1]
+        ctx.h('mapping_form', 'sorted=False, permuted rows')
+        ok, out = install.guarded(ctx, 'stage:mapping', lambda: rdp.mapping(k3, reduced, rem[perm], sorted=False))
+    else:
+        ctx.h('mapping_form', 'default')
+        ok, out = install.guarded(ctx, 'stage:mapping', rdp.mapping, k3, reduced, removed)
     if not ok:
         return
     ctx.ok('pipeline-complete')
